@@ -91,7 +91,7 @@ def ok_exits(P, fn, ev=None, depth=2, inline_bools=True, variant="Ok"):
 
     ev = ev or evaluate(fn)
     Pf = P if inline_bools else None
-    out = [(b, G.path_literals(ev, b, Pf)) for b in ok_blocks(fn, variant)]
+    out = [(b, G.path_literals(ev, b, Pf, checks_only=True)) for b in ok_blocks(fn, variant)]
     if depth <= 0:
         return out
     al = return_aliases(fn)
@@ -105,7 +105,7 @@ def ok_exits(P, fn, ev=None, depth=2, inline_bools=True, variant="Ok"):
             # `return external(..)` in a Result-returning function: the callee may return Ok (only the caller's own
             # path conditions are known); `?` lowers to from_residual, which only builds Err
             if variant == "Ok" and g is None and "Result<" in (fn.locals[0].get("ty") or "") and c.get("name") != "from_residual":
-                here = G.path_literals(ev, b, Pf)
+                here = G.path_literals(ev, b, Pf, checks_only=True)
                 sv = ev.sites.get(b)
                 alts = success_alternatives(strip_sites(sv.value), Pf) if sv is not None else [set()]
                 for alt in alts:
@@ -119,7 +119,7 @@ def ok_exits(P, fn, ev=None, depth=2, inline_bools=True, variant="Ok"):
         for i in range(1, g.arg_count + 1):
             if i - 1 < len(s.args):
                 mapping[T("param", i, gev.pname(i))] = s.args[i - 1]
-        here = G.path_literals(ev, b, Pf)
+        here = G.path_literals(ev, b, Pf, checks_only=True)
         for gb, glits in ok_exits(P, g, gev, depth - 1, inline_bools, variant):
             out.append((b, here | subst_literals(glits, mapping, Pf)))
     return out
@@ -150,7 +150,7 @@ def check_result_guard(ctx, rule, P, fn_key, kind, subj, desc=None, exits="ok"):
     if fn is None:
         return False
     ev = evaluate(fn)
-    exs = ok_exits(P, fn, ev) if exits == "ok" else [(b, G.path_literals(ev, b, P)) for b in exits(fn, ev)]
+    exs = ok_exits(P, fn, ev) if exits == "ok" else [(b, G.path_literals(ev, b, P, checks_only=True)) for b in exits(fn, ev)]
     blocks = [b for b, _ in exs]
     name = desc or (subj[1] if subj[0] == "param" else subj[1])
     if not blocks:
@@ -183,7 +183,7 @@ def check_block_guard(ctx, rule, P, fn_key, block_pred, kind, subj, desc):
     ok = True
     bad = None
     for b in blocks:
-        if not has_literal(G.path_literals(ev, b, P), kind, subj, False):
+        if not has_literal(G.path_literals(ev, b, P, checks_only=True), kind, subj, False):
             ok = False
             bad = b
     return ctx.ob(rule, "%s/%s" % (fn_key, desc), ok, "site `%s` must be dominated by !%s(%s)" % (desc, kind, subj[1]), where=where(fn, bad if bad is not None else blocks[0]))
@@ -279,7 +279,7 @@ def check_min_len(ctx, rule, P, fn_key, pname, k, extra_blocks=None):
     if fn is None:
         return False
     ev = evaluate(fn)
-    exs = ok_exits(P, fn, ev) + [(b, G.path_literals(ev, b, P)) for b in (extra_blocks(fn, ev) if extra_blocks else [])]
+    exs = ok_exits(P, fn, ev) + [(b, G.path_literals(ev, b, P, checks_only=True)) for b in (extra_blocks(fn, ev) if extra_blocks else [])]
     blocks = [b for b, _ in exs]
     if not blocks:
         return ctx.ob(rule + ".anchor", fn_key, False, "no success exit found in `%s`" % fn_key, where=where(fn))
